@@ -516,6 +516,22 @@ func genExp14(rng *rand.Rand) (*experimentsv1beta1.Experiment, []string) {
 				tags = append(tags, "mutated")
 			}
 		}
+		if rng.Intn(4) == 0 {
+			// one budget field off on an otherwise clean experiment (each rule must hold on its own)
+			bad := func() *int32 { v := pick(rng, []int32{0, -1, -7, 1, 100}); return &v }
+			switch rng.Intn(4) {
+			case 0:
+				e.Spec.ParallelTrialCount = bad()
+			case 1:
+				e.Spec.MaxTrialCount = bad()
+			case 2:
+				e.Spec.MaxFailedTrialCount = bad()
+			case 3:
+				e.Spec.MaxTrialCount = nil
+				e.Spec.ParallelTrialCount = bad()
+			}
+			tags = append(tags, "one-budget-field-off")
+		}
 		return e, tags
 	}
 	e := &experimentsv1beta1.Experiment{ObjectMeta: metav1.ObjectMeta{Name: pick(rng, c14Names), Namespace: "ns"}}
